@@ -17,6 +17,7 @@ RT == INSTANCE RustTypes
 RUN == INSTANCE Runtime
 EN == INSTANCE Entries
 CO == INSTANCE Consts
+CP == INSTANCE Compile
 
 Rec == ndJsonDeserialize(IOEnv.TRACE)
 Enforce == IOEnv.ENFORCE
@@ -323,6 +324,35 @@ C07(c, o) ==
                          "vertex_buffer_layout of " \o vs.struct \o " is not (size_of, caller's step mode, VERTEX_ATTRIBUTES)")
                      : k \in DOMAIN EntEv(o, "rt.vertex_struct") }) ]
 
+(* ------------------------------------------------------------------ C01 *)
+C01(c, o) ==
+  IF ~(ValidAll(o) /\ RetOk(o) /\ Has(o, "compile")) THEN NoVerdict ELSE
+  LET bad == { o.compile.classes[i] : i \in DOMAIN o.compile.classes } \ CP!Permitted
+      pred == IF HasS(c) THEN CP!PredictedCauses(c.S, c.opts) ELSE {}
+  IN [ dom |-> TRUE, fails |->
+       IF o.compile.outcome = "reject" /\ bad # {}
+       THEN { "rejected by rustc for a reason other than the bytemuck layout checks [predicted=" \o ToJson(pred) \o "] classes " \o ToJson(bad) \o ": " \o o.compile.errors[1] }
+       ELSE {} ]
+
+(* ------------------------------------------------------------------ C05 soundness (compiled) *)
+TwinOf(o, n) == SelectSeq(o.twin, LAMBDA e : e.struct = n)
+WgslLayoutRec(S, n) ==
+  [ size |-> L!StructSize(S, n), offs |-> { [ name |-> x.field, off |-> x.n ] : x \in Range(ST!AssertOffsets(S, n)) } ]
+TwinLayoutRec(t) == [ size |-> t.size, offs |-> { [ name |-> x.name, off |-> x.off ] : x \in Range(t.offsets) } ]
+C05Sound(c, o) ==
+  IF ~(HasS(c) /\ ValidAll(o) /\ RetOk(o) /\ c.opts.bmh /\ Has(o, "compile") /\ Has(o, "twin")) THEN NoVerdict ELSE
+  LET S == c.S
+      hs == { n \in Emit(S) : ST!HostShareable(S, n) /\ ~ST!HasRts(S, n) }
+      rej == Range(o.compile.rejected_structs)
+  IN [ dom |-> TRUE, fails |->
+       UNION { LET t == TwinOf(o, n) IN
+               IF Len(t) # 1 THEN { "PROJ no twin layout measured for " \o n }
+               ELSE Chk(n \in rej \/ TwinLayoutRec(t[1]) = WgslLayoutRec(S, n),
+                        "struct " \o n \o " passes the layout assertions but its Rust layout " \o ToJson(TwinLayoutRec(t[1])) \o " differs from the WGSL layout " \o ToJson(WgslLayoutRec(S, n)))
+                    \cup Chk(~(n \in rej /\ o.compile.outcome = "ok"), "inconsistent compile record")
+               : n \in hs }
+       \cup C05(c, o).fails ]
+
 (* ------------------------------------------------------------------ C12 *)
 C12(c, o) ==
   IF HasS(c) /\ ValidAll(o) /\ RetOk(o) /\ RejectedAbout(o, "override")
@@ -438,6 +468,8 @@ Judge0(c, o) ==
     [] Enforce = "C13" -> C13(c, o)
     [] Enforce = "C06" -> C06(c, o)
     [] Enforce = "C05" -> C05(c, o)
+    [] Enforce = "C05S" -> C05Sound(c, o)
+    [] Enforce = "C01" -> C01(c, o)
     [] Enforce = "C04" -> C04(c, o)
     [] Enforce = "C14" -> C14(c, o)
     [] Enforce = "C07" -> C07(c, o)
@@ -453,7 +485,7 @@ Judge(c, o) ==
     [] Enforce = "C18" -> C18(c, o)
     [] OTHER -> Stateless(Judge0(c, o), c)
 
-Emit1(c, m) == PrintT("VERDICT " \o ToJson([ prop |-> Enforce, id |-> c.id, family |-> c.family, msg |-> m ]))
+Emit1(c, m) == PrintT("VERDICT " \o ToJson([ prop |-> (IF Enforce = "C05S" THEN "C05" ELSE Enforce), id |-> c.id, family |-> c.family, msg |-> m ]))
 
 Init == l = 1 /\ cur = [ id |-> "", has_s |-> FALSE ] /\ nj = 0 /\ nbad = 0 /\ memo = [ sha |-> "", m |-> << >> ] /\ ph = << >>
         /\ TLCSet(1, 0) /\ TLCSet(2, 0)
